@@ -83,8 +83,19 @@ class Server:
         return names
 
     def workers_alive(self):
-        names = self.census()
-        return sorted(int(n) for n in names if n.isdigit() and int(n) < self.threads)
+        """worker threads present in /proc.  A thread that ended stays ended, so a reading with fewer workers than
+        expected is confirmed by two more readings (a listing of /proc/<pid>/task taken on a loaded machine was seen
+        to miss a live thread once); the largest reading is returned."""
+        best = []
+        for attempt in range(3):
+            names = self.census()
+            cur = sorted(int(n) for n in names if n.isdigit() and int(n) < self.threads)
+            if len(cur) > len(best):
+                best = cur
+            if len(best) >= self.threads or not self.alive():
+                break
+            time.sleep(0.05)
+        return best
 
     def stdout_text(self):
         self.out.flush()
